@@ -293,3 +293,377 @@ MUTANTS += [
      "edits": [("src/automata.rs", "                let dfa_state_new = dfa_state\n                    .iter()\n                    .flat_map(|nfa_state_id| self.states[nfa_state_id].edges.get(&symbol).copied());\n",
                 "                let dfa_state_new: BTreeSet<NFAStateId> = dfa_state\n                    .iter()\n                    .flat_map(|nfa_state_id| self.states[nfa_state_id].edges.get(&symbol).copied())\n                    .collect();\n")]},
 ]
+
+
+# ---- R4 robustness: behaviour-preserving rewrites of compile() (taken from seeded/benign C03-C, C15-C and variations) and near misses
+_ROWS = ("        let states = dfa_table\n            .into_iter()\n            .enumerate()\n            .flat_map(|(index, (state, edges))| {\n                assert_eq!(index, state.0);\n"
+         "                (0..=Symbol::MAX).map(move |symbol| edges.get(&symbol).copied())\n            })\n            .collect::<Vec<Option<DFAState>>>();\n")
+_ROWS_LOOP = ("        let mut states: Vec<Option<DFAState>> = Vec::with_capacity(dfa_table.len() * lang_size);\n        for (index, (state, edges)) in dfa_table.into_iter().enumerate() {\n"
+              "            assert_eq!(index, state.0);\n            states.extend((0..=Symbol::MAX).map(|symbol| edges.get(&symbol).copied()));\n        }\n"
+              "        debug_assert_eq!(states.len(), infos.len() * lang_size);\n")
+_ROWS_EXTEND = ("        let mut states: Vec<Option<DFAState>> = Vec::with_capacity(dfa_table.len() * lang_size);\n        states.extend(\n            dfa_table\n                .into_iter()\n                .enumerate()\n"
+                "                .flat_map(|(index, (state, edges))| {\n                    assert_eq!(index, state.0);\n                    (0..=Symbol::MAX).map(move |symbol| edges.get(&symbol).copied())\n                }),\n        );\n")
+_TAGS = ("                if let Some(tag) = self.states.get(nfa_state_id).and_then(|s| s.tag.clone()) {\n                    info.tags.insert(tag.clone());\n                }\n")
+_INFO_HEAD = "        for (dfa_state, dfa_state_id) in dfa_states {\n            let info = &mut infos[dfa_state_id.0];\n"
+MUTANTS += [
+    {"id": "C15-benign-r4-rows-for-loop-extend", "prop": "C15", "benign": True, "edits": [(A, _ROWS, _ROWS_LOOP)]},
+    {"id": "C15-benign-r4-rows-extend-flat-map", "prop": "C15", "benign": True, "edits": [(A, _ROWS, _ROWS_EXTEND)]},
+    {"id": "C15-benign-r4-infos-with-capacity", "prop": "C15", "benign": True,
+     "edits": [(A, "        let mut infos: Vec<DFAStateInfo<T>> = Vec::new();", "        debug_assert_eq!(dfa_table.len(), dfa_states.len());\n        let mut infos: Vec<DFAStateInfo<T>> = Vec::with_capacity(dfa_states.len());")]},
+    {"id": "C15-benign-r4-tag-as-ref", "prop": "C15", "benign": True,
+     "edits": [(A, _TAGS, "                if let Some(tag) = self.states.get(nfa_state_id).and_then(|s| s.tag.as_ref()) {\n                    info.tags.insert(tag.clone());\n                }\n")]},
+    {"id": "C15-benign-r4-tag-single-clone", "prop": "C15", "benign": True,
+     "edits": [(A, _TAGS, "                if let Some(tag) = self.states.get(nfa_state_id).and_then(|s| s.tag.clone()) {\n                    info.tags.insert(tag);\n                }\n")]},
+    {"id": "C15-benign-r4-tag-nested-if-let", "prop": "C15", "benign": True,
+     "edits": [(A, _TAGS, "                if let Some(member) = self.states.get(nfa_state_id) {\n                    if let Some(tag) = &member.tag {\n                        info.tags.insert(tag.clone());\n                    }\n                }\n")]},
+    {"id": "C15-benign-r4-tags-extend-filter-map", "prop": "C15", "benign": True,
+     "edits": [(A, "            for nfa_state_id in dfa_state.iter() {\n" + _TAGS + "            }\n",
+                "            info.tags.extend(\n                dfa_state\n                    .iter()\n                    .filter_map(|nfa_state_id| self.states.get(nfa_state_id).and_then(|s| s.tag.clone())),\n            );\n")]},
+    {"id": "C15-benign-r4-info-get-mut-and-table-get", "prop": "C15", "benign": True,
+     "edits": [(A, _INFO_HEAD + "            info.is_accepting = dfa_state.contains(&self.stop);\n            info.is_terminal = dfa_table[&dfa_state_id].is_empty();\n",
+                "        for (members, id) in dfa_states.into_iter() {\n            let dfa_state = members;\n            let dfa_state_id = id;\n            let info = infos.get_mut(dfa_state_id.0).expect(\"one info per state\");\n"
+                "            info.is_terminal = dfa_table.get(&dfa_state_id).expect(\"row of every state\").is_empty();\n            info.is_accepting = dfa_state.contains(&self.stop);\n")]},
+    {"id": "C15-benign-r4-assert-as-if-panic", "prop": "C15", "benign": True,
+     "edits": [(A, "                assert_eq!(index, state.0);", "                if state.0 != index {\n                    panic!(\"DFA states are not dense\");\n                }")]},
+    {"id": "C15-benign-r4-start-id-reused", "prop": "C15", "benign": True,
+     "edits": [(A, "        dfa_states.insert(dfa_start, DFAState(0));", "        dfa_states.insert(dfa_start, dfa_start_id);")]},
+    # near misses
+    {"id": "C15-r4-rows-loop-without-assert", "prop": "C15", "expect": "R4-DENSITY/automata::NFA::compile/no-density-assert",
+     "edits": [(A, _ROWS, _ROWS_LOOP.replace("            assert_eq!(index, state.0);\n", "            let _ = (index, state.0);\n"))]},
+    {"id": "C15-r4-rows-loop-assert-skipped-for-empty-rows", "prop": "C15", "expect": "R4-DENSITY/automata::NFA::compile/guard-bypassed",
+     "edits": [(A, _ROWS, _ROWS_LOOP.replace("            assert_eq!(index, state.0);\n", "            if !edges.is_empty() {\n                assert_eq!(index, state.0);\n            }\n"))]},
+    {"id": "C15-r4-rows-loop-stops-early", "prop": "C15", "expect": "R4-DENSITY/automata::NFA::compile/states-not-from-guarded-rows",
+     "edits": [(A, _ROWS, _ROWS_LOOP.replace("            states.extend((0..=Symbol::MAX).map(|symbol| edges.get(&symbol).copied()));\n",
+                                             "            states.extend((0..=Symbol::MAX).map(|symbol| edges.get(&symbol).copied()));\n            if edges.is_empty() && index > 0 {\n                break;\n            }\n")
+                .replace("        debug_assert_eq!(states.len(), infos.len() * lang_size);\n", ""))]},
+    {"id": "C15-r4-rows-extra-push", "prop": "C15", "expect": "R4-DENSITY/automata::NFA::compile/states-not-from-guarded-rows",
+     "edits": [(A, _ROWS, _ROWS_EXTEND.replace("        states.extend(\n", "        states.push(None);\n        states.extend(\n"))]},
+    {"id": "C15-r4-tag-as-ref-of-start-state", "prop": "C15", "expect": "R4-INFO/automata::NFA::compile/tags",
+     "edits": [(A, _TAGS, "                if let Some(tag) = self.states.get(&self.start).filter(|_| nfa_state_id == &self.start).and_then(|s| s.tag.as_ref()) {\n                    info.tags.insert(tag.clone());\n                }\n")]},
+    {"id": "C15-r4-tags-extend-first-only", "prop": "C15", "expect": "R4-INFO/automata::NFA::compile/tags",
+     "edits": [(A, "            for nfa_state_id in dfa_state.iter() {\n" + _TAGS + "            }\n",
+                "            info.tags.extend(\n                dfa_state\n                    .iter()\n                    .filter_map(|nfa_state_id| self.states.get(nfa_state_id).and_then(|s| s.tag.clone()))\n                    .take(1),\n            );\n")]},
+    {"id": "C15-r4-info-loop-skips-states", "prop": "C15", "expect": "R4-INFO/automata::NFA::compile/is_",
+     "edits": [(A, _INFO_HEAD, "        for (dfa_state, dfa_state_id) in dfa_states {\n            if dfa_state.len() > 64 {\n                break;\n            }\n            let info = &mut infos[dfa_state_id.0];\n")]},
+    {"id": "C15-r4-terminal-from-other-row", "prop": "C15", "expect": "R4-INFO/automata::NFA::compile/is_terminal",
+     "edits": [(A, "            info.is_terminal = dfa_table[&dfa_state_id].is_empty();", "            info.is_terminal = dfa_table[&dfa_start_id].is_empty();")]},
+]
+
+
+MUTANTS += [
+    {"id": "C15-benign-union-built-in-for-loop", "prop": "C15", "benign": True,
+     "edits": [("src/decoder.rs", '        let automata = NFA::choice(matchers.iter().enumerate().map(|(index, matcher)| {\n            match matcher.matcher() {\n                Either::Left(automata) => {\n                    automata\n                        // this call only here to convert type as [Void] cannot be created\n                        .tags_map(|_| MatcherTag::Matcher(index))\n                        .tag_stop_state(MatcherTag::Matcher(index))\n                }\n                Either::Right(automata) => automata.tags_map(MatcherTag::Item),\n            }\n        }))\n        .compile();\n', '        let mut alternatives = Vec::with_capacity(matchers.len());\n        for (index, matcher) in matchers.iter().enumerate() {\n            let alternative = match matcher.matcher() {\n                Either::Left(automata) => automata\n                    .tags_map(|_| MatcherTag::Matcher(index))\n                    .tag_stop_state(MatcherTag::Matcher(index)),\n                Either::Right(automata) => automata.tags_map(MatcherTag::Item),\n            };\n            alternatives.push(alternative);\n        }\n        let automata = NFA::choice(alternatives).compile();\n')]},
+]
+
+
+# ---- R1 robustness (sa.grammar role / merge evaluators): behaviour-preserving refactorings of the combinators and of merge_states must stay
+# silent (helpers, closures, iterator idioms, max idioms, let-insensitivity, named constants); their near-misses must be reported
+_R1_SEQ_IFLET = """            if let Some(from_state) = states.get_mut(&from) {
+                from_state.epsilons.insert(to);
+            }
+"""
+_R1_CHOICE_LOOP = """        for (from, to) in ends {
+            start_state.epsilons.insert(from);
+            if let Some(to_state) = states.get_mut(&to) {
+                to_state.epsilons.insert(stop);
+            }
+        }
+"""
+_R1_CHOICE_IFLET = """            if let Some(to_state) = states.get_mut(&to) {
+                to_state.epsilons.insert(stop);
+            }
+"""
+_R1_MANY_IFLET = """        if let Some(to_state) = states.get_mut(&to) {
+            to_state.epsilons.insert(stop);
+            to_state.epsilons.insert(from);
+        }
+"""
+_R1_SOME_IFLET = """        if let Some(stop) = self.states.get_mut(&self.stop) {
+            stop.epsilons.insert(self.start);
+        }
+"""
+_R1_ANCHOR = "/// Nondeterministic finite automaton\n"
+_R1_CONNECT = """fn connect<T>(states: &mut BTreeMap<NFAStateId, NFAState<T>>, from: NFAStateId, to: NFAStateId) {
+    if let Some(state) = states.get_mut(&from) {
+        state.epsilons.insert(to);
+    }
+}
+
+"""
+_R1_CONNECT_SWAPPED = """fn connect<T>(states: &mut BTreeMap<NFAStateId, NFAState<T>>, from: NFAStateId, to: NFAStateId) {
+    if let Some(state) = states.get_mut(&to) {
+        state.epsilons.insert(from);
+    }
+}
+
+"""
+_R1_CONNECT_EDITS = [
+    (A, _R1_SEQ_IFLET, "            connect(&mut states, from, to);\n"),
+    (A, _R1_CHOICE_IFLET, "            connect(&mut states, to, stop);\n"),
+    (A, _R1_MANY_IFLET, "        connect(&mut states, to, stop);\n        connect(&mut states, to, from);\n"),
+    (A, _R1_SOME_IFLET, "        connect(&mut self.states, self.stop, self.start);\n"),
+]
+_R1_SHIFTED = """impl NFAStateId {
+    fn shifted(self, offset: usize) -> Self {
+        NFAStateId(offset + self.0)
+    }
+}
+
+"""
+_R1_MERGE_ENDS = """            let start = NFAStateId(offset + start.0);
+            let stop = NFAStateId(offset + stop.0);
+            ends_out.push((start, stop));
+"""
+_R1_MERGE_ID = "                let id = NFAStateId(offset + id.0);\n"
+_R1_MERGE_EDGES = "                    .map(|(k, v)| (k, NFAStateId(offset + v.0)))\n"
+_R1_MERGE_EPS = "                    .map(|v| NFAStateId(offset + v.0))\n"
+_R1_MERGE_INSERT_KEY = "                states_out.insert(\n                    id,\n"
+_R1_MERGE_MAX = "                max_id = std::cmp::max(max_id, id.0);\n"
+_R1_SHIFTED_EDITS = [
+    (A, _R1_MERGE_ENDS, "            ends_out.push((start.shifted(offset), stop.shifted(offset)));\n"),
+    (A, _R1_MERGE_ID, ""),
+    (A, _R1_MERGE_EDGES, "                    .map(|(symbol, target)| (symbol, target.shifted(offset)))\n"),
+    (A, _R1_MERGE_EPS, "                    .map(|target| target.shifted(offset))\n"),
+    (A, _R1_MERGE_INSERT_KEY, "                states_out.insert(\n                    id.shifted(offset),\n"),
+]
+_R1_MERGE_EDGES_FULL = """                let edges = edges
+                    .into_iter()
+                    .map(|(k, v)| (k, NFAStateId(offset + v.0)))
+                    .collect();
+"""
+_R1_OPT_BODY = """        let start = NFAStateId(0);
+        let stop = NFAStateId(1);
+        let mut start_state = NFAState::new();
+        start_state.epsilons.insert(from);
+        start_state.epsilons.insert(stop);
+        if let Some(to_state) = states.get_mut(&to) {
+            to_state.epsilons.insert(stop);
+        }
+        states.insert(start, start_state);
+"""
+_R1_SEQ_ENDS = """        let (start, _) = ends[0];
+        let (_, stop) = ends[ends.len() - 1];
+"""
+_R1_CHOICE_REST = """        let start = NFAStateId(0);
+        let stop = NFAStateId(1);
+        let mut start_state = NFAState::new();
+        for (from, to) in ends {
+            start_state.epsilons.insert(from);
+            if let Some(to_state) = states.get_mut(&to) {
+                to_state.epsilons.insert(stop);
+            }
+        }
+        states.insert(start, start_state);
+        states.insert(stop, NFAState::new());
+
+        Self {
+            start,
+            stop,
+            states,
+        }
+    }
+
+    /// For `a` regular expression it is equivalent to `a+`
+"""
+MUTANTS += [
+    {"id": "C15-benign-r1-shift-helper", "prop": "C15", "benign": True,
+     "edits": [(A, _R1_ANCHOR, _R1_SHIFTED + _R1_ANCHOR)] + _R1_SHIFTED_EDITS},
+    {"id": "C15-benign-r1-connect-helper", "prop": "C15", "benign": True,
+     "edits": [(A, _R1_ANCHOR, _R1_CONNECT + _R1_ANCHOR)] + _R1_CONNECT_EDITS},
+    {"id": "C15-benign-r1-state-link-method", "prop": "C15", "benign": True,
+     "edits": [(A, "impl<T> NFAState<T> {\n", "impl<T> NFAState<T> {\n    fn link(&mut self, to: NFAStateId) {\n        self.epsilons.insert(to);\n    }\n\n"),
+               (A, _R1_OPT_BODY, _R1_OPT_BODY.replace("start_state.epsilons.insert(from)", "start_state.link(from)").replace("start_state.epsilons.insert(stop)", "start_state.link(stop)").replace("to_state.epsilons.insert(stop)", "to_state.link(stop)"))]},
+    {"id": "C15-benign-r1-wrap-helper", "prop": "C15", "benign": True,
+     "edits": [(A, _R1_ANCHOR, """fn wrap<T>(states: &mut BTreeMap<NFAStateId, NFAState<T>>, entry: NFAState<T>) -> (NFAStateId, NFAStateId) {
+    let start = NFAStateId(0);
+    let stop = NFAStateId(1);
+    states.insert(start, entry);
+    states.insert(stop, NFAState::new());
+    (start, stop)
+}
+
+""" + _R1_ANCHOR),
+               (A, _R1_OPT_BODY + "        states.insert(stop, NFAState::new());\n", """        let mut start_state = NFAState::new();
+        start_state.epsilons.insert(from);
+        start_state.epsilons.insert(NFAStateId(1));
+        let (start, stop) = wrap(&mut states, start_state);
+        if let Some(to_state) = states.get_mut(&to) {
+            to_state.epsilons.insert(stop);
+        }
+""")]},
+    {"id": "C15-benign-r1-sequence-windows", "prop": "C15", "benign": True,
+     "edits": [(A, "        for index in 1..ends.len() {\n            let (_, from) = ends[index - 1];\n            let (to, _) = ends[index];\n",
+                "        for pair in ends.windows(2) {\n            let (_, from) = pair[0];\n            let (to, _) = pair[1];\n")]},
+    {"id": "C15-benign-r1-sequence-zip-skip", "prop": "C15", "benign": True,
+     "edits": [(A, "        for index in 1..ends.len() {\n            let (_, from) = ends[index - 1];\n            let (to, _) = ends[index];\n",
+                "        for (&(_, from), &(to, _)) in ends.iter().zip(ends.iter().skip(1)) {\n")]},
+    {"id": "C15-benign-r1-sequence-index-from-zero", "prop": "C15", "benign": True,
+     "edits": [(A, "        for index in 1..ends.len() {\n            let (_, from) = ends[index - 1];\n            let (to, _) = ends[index];\n",
+                "        for index in 0..ends.len() - 1 {\n            let from = ends[index].1;\n            let to = ends[index + 1].0;\n")]},
+    {"id": "C15-benign-r1-sequence-let-else", "prop": "C15", "benign": True,
+     "edits": [(A, "        let (mut states, ends) = Self::merge_states(nfas, 0);\n        if ends.is_empty() {\n            return Self::empty();\n        }\n",
+                "        let (mut states, ends) = Self::merge_states(nfas, 0);\n        let Some(&(start, _)) = ends.first() else {\n            return Self::empty();\n        };\n"),
+               (A, _R1_SEQ_ENDS, "        let stop = ends[ends.len() - 1].1;\n")]},
+    {"id": "C15-benign-r1-merge-max-by-if", "prop": "C15", "benign": True,
+     "edits": [(A, _R1_MERGE_MAX, "                if id.0 > max_id {\n                    max_id = id.0;\n                }\n")]},
+    {"id": "C15-benign-r1-merge-max-match-cmp", "prop": "C15", "benign": True,
+     "edits": [(A, _R1_MERGE_MAX, "                match id.0.cmp(&max_id) {\n                    std::cmp::Ordering::Greater => max_id = id.0,\n                    _ => {}\n                }\n")]},
+    {"id": "C15-benign-r1-merge-max-two-pass", "prop": "C15", "benign": True,
+     "edits": [(A, "            let mut max_id = 0;\n", "            let max_id = states.keys().map(|id| id.0).max().unwrap_or(0);\n"),
+               (A, _R1_MERGE_MAX, "")]},
+    {"id": "C15-benign-r1-merge-inlined-lets", "prop": "C15", "benign": True,
+     "edits": [(A, _R1_MERGE_ENDS, "            ends_out.push((NFAStateId(offset + start.0), NFAStateId(offset + stop.0)));\n"),
+               (A, _R1_MERGE_ID, ""),
+               (A, _R1_MERGE_INSERT_KEY, "                states_out.insert(\n                    NFAStateId(offset + id.0),\n")]},
+    {"id": "C15-benign-r1-merge-flipped-operands", "prop": "C15", "benign": True,
+     "edits": [(A, _R1_MERGE_ENDS, "            let start = NFAStateId(start.0 + offset);\n            let stop = NFAStateId(stop.0 + offset);\n            ends_out.push((start, stop));\n"),
+               (A, _R1_MERGE_MAX, "                max_id = std::cmp::max(id.0, max_id);\n"),
+               (A, _R1_MERGE_EPS, "                    .map(|target| NFAStateId(target.0 + offset))\n"),
+               (A, "            offset += max_id + 1;", "            offset += 1 + max_id;")]},
+    {"id": "C15-benign-r1-merge-shift-closure", "prop": "C15", "benign": True,
+     "edits": [(A, _R1_MERGE_ENDS, "            let shift = |id: NFAStateId| NFAStateId(offset + id.0);\n            ends_out.push((shift(start), shift(stop)));\n"),
+               (A, _R1_MERGE_ID, "                let id = shift(id);\n"),
+               (A, _R1_MERGE_EDGES, "                    .map(|(k, v)| (k, shift(v)))\n"),
+               (A, _R1_MERGE_EPS, "                    .map(shift)\n")]},
+    {"id": "C15-benign-r1-merge-edges-for-loop", "prop": "C15", "benign": True,
+     "edits": [(A, _R1_MERGE_EDGES_FULL, "                let mut shifted_edges = BTreeMap::new();\n                for (symbol, target) in edges {\n                    shifted_edges.insert(symbol, NFAStateId(offset + target.0));\n                }\n                let edges = shifted_edges;\n")]},
+    {"id": "C15-benign-r1-choice-match", "prop": "C15", "benign": True,
+     "edits": [(A, _R1_CHOICE_IFLET, "            match states.get_mut(&to) {\n                Some(to_state) => {\n                    to_state.epsilons.insert(stop);\n                }\n                None => {}\n            }\n")]},
+    {"id": "C15-benign-r1-choice-for-each", "prop": "C15", "benign": True,
+     "edits": [(A, _R1_CHOICE_LOOP, "        ends.into_iter().for_each(|(from, to)| {\n            start_state.epsilons.insert(from);\n            if let Some(to_state) = states.get_mut(&to) {\n                to_state.epsilons.insert(stop);\n            }\n        });\n")]},
+    {"id": "C15-benign-r1-choice-by-ref-fields", "prop": "C15", "benign": True,
+     "edits": [(A, _R1_CHOICE_LOOP, "        for end in &ends {\n            start_state.epsilons.insert(end.0);\n            if let Some(to_state) = states.get_mut(&end.1) {\n                to_state.epsilons.insert(stop);\n            }\n        }\n")]},
+    {"id": "C15-benign-r1-choice-tail-if-else", "prop": "C15", "benign": True,
+     "edits": [(A, "        let (mut states, ends) = Self::merge_states(nfas, 2);\n        if ends.is_empty() {\n            return Self::nothing();\n        }\n\n" + _R1_CHOICE_REST,
+                "        let (mut states, ends) = Self::merge_states(nfas, 2);\n        if ends.is_empty() {\n            Self::nothing()\n        } else {\n" + _R1_CHOICE_REST.replace("        Self {\n            start,\n            stop,\n            states,\n        }\n    }\n", "        Self {\n            start,\n            stop,\n            states,\n        }\n        }\n    }\n"))]},
+    {"id": "C15-benign-r1-named-constants", "prop": "C15", "benign": True,
+     "edits": [(A, _R1_ANCHOR, "const FRESH_START: NFAStateId = NFAStateId(0);\nconst FRESH_STOP: NFAStateId = NFAStateId(1);\nconst RESERVED: usize = 2;\n\n" + _R1_ANCHOR),
+               (A, "        // add offset of 2 to state ids\n        let (mut states, ends) = Self::merge_states(once(self), 2);\n        let (from, to) = ends[0];\n\n        let start = NFAStateId(0);\n        let stop = NFAStateId(1);\n",
+                "        let (mut states, ends) = Self::merge_states(once(self), RESERVED);\n        let (from, to) = ends[0];\n\n        let start = FRESH_START;\n        let stop = FRESH_STOP;\n")]},
+    {"id": "C15-r1-sequence-windows-reversed", "prop": "C15", "expect": "R1-WIRING/automata::NFA::sequence/not-thompson",
+     "edits": [(A, "        for index in 1..ends.len() {\n            let (_, from) = ends[index - 1];\n            let (to, _) = ends[index];\n",
+                "        for pair in ends.windows(2) {\n            let (_, from) = pair[1];\n            let (to, _) = pair[0];\n")]},
+    {"id": "C15-r1-sequence-zip-skip-wrong-side", "prop": "C15", "expect": "R1-WIRING/automata::NFA::sequence/not-thompson",
+     "edits": [(A, "        for index in 1..ends.len() {\n            let (_, from) = ends[index - 1];\n            let (to, _) = ends[index];\n",
+                "        for (&(_, from), &(to, _)) in ends.iter().skip(1).zip(ends.iter()) {\n")]},
+    {"id": "C15-r1-sequence-index-before-empty-check", "prop": "C15", "expect": "R1-WIRING/automata::NFA::sequence/not-understood",
+     "edits": [(A, "        let (mut states, ends) = Self::merge_states(nfas, 0);\n        if ends.is_empty() {\n            return Self::empty();\n        }\n",
+                "        let (mut states, ends) = Self::merge_states(nfas, 0);\n        let (start, _) = ends[0];\n        if ends.is_empty() {\n            return Self::empty();\n        }\n"),
+               (A, "        let (start, _) = ends[0];\n        let (_, stop) = ends[ends.len() - 1];\n", "        let (_, stop) = ends[ends.len() - 1];\n")]},
+    {"id": "C15-r1-shift-helper-ignores-offset", "prop": "C15", "expect": "R1-MERGE/automata::NFA::merge_states/",
+     "edits": [(A, _R1_ANCHOR, _R1_SHIFTED.replace("NFAStateId(offset + self.0)", "NFAStateId(self.0 + offset - offset)") + _R1_ANCHOR)] + _R1_SHIFTED_EDITS},
+    {"id": "C15-r1-shift-helper-edges-off-by-one", "prop": "C15", "expect": "R1-MERGE/automata::NFA::merge_states/edge-targets-are-shifted",
+     "edits": [(A, _R1_ANCHOR, _R1_SHIFTED + _R1_ANCHOR)] + [(f, o, n.replace("(symbol, target.shifted(offset))", "(symbol, target.shifted(offset + 1))")) for (f, o, n) in _R1_SHIFTED_EDITS]},
+    {"id": "C15-r1-merge-min-by-if", "prop": "C15", "expect": "R1-MERGE/automata::NFA::merge_states/max-id-max",
+     "edits": [(A, _R1_MERGE_MAX, "                if id.0 < max_id {\n                    max_id = id.0;\n                }\n")]},
+    {"id": "C15-r1-merge-max-over-shifted-id", "prop": "C15", "expect": "R1-MERGE/automata::NFA::merge_states/max-id-max",
+     "edits": [(A, _R1_MERGE_MAX + "                let NFAState {\n                    edges,\n                    epsilons,\n                    tag,\n                } = state;\n" + _R1_MERGE_ID,
+                "                let NFAState {\n                    edges,\n                    epsilons,\n                    tag,\n                } = state;\n" + _R1_MERGE_ID + _R1_MERGE_MAX)]},
+    {"id": "C15-r1-merge-max-two-pass-len", "prop": "C15", "expect": "R1-MERGE/automata::NFA::merge_states/offset-advances",
+     "edits": [(A, "            let mut max_id = 0;\n", "            let max_id = states.len();\n"),
+               (A, _R1_MERGE_MAX, "")]},
+    {"id": "C15-r1-merge-move-closure-stale-offset", "prop": "C15", "expect": "R1-MERGE/automata::NFA::merge_states/",
+     "edits": [(A, "        let mut ends_out: Vec<(NFAStateId, NFAStateId)> = Vec::new();\n", "        let mut ends_out: Vec<(NFAStateId, NFAStateId)> = Vec::new();\n        let shift = move |id: NFAStateId| NFAStateId(offset + id.0);\n"),
+               (A, _R1_MERGE_ENDS, "            ends_out.push((shift(start), shift(stop)));\n"),
+               (A, _R1_MERGE_ID, "                let id = shift(id);\n"),
+               (A, _R1_MERGE_EDGES, "                    .map(|(k, v)| (k, shift(v)))\n"),
+               (A, _R1_MERGE_EPS, "                    .map(shift)\n"),
+               (A, "        (states_out, ends_out)\n", "        let _final_offset = offset;\n        (states_out, ends_out)\n")]},
+    {"id": "C15-r1-merge-push-after-advance", "prop": "C15", "expect": "R1-MERGE/automata::NFA::merge_states/ends-out-receives",
+     "edits": [(A, _R1_MERGE_ENDS, ""),
+               (A, "            offset += max_id + 1;\n", "            offset += max_id + 1;\n            ends_out.push((NFAStateId(offset + start.0), NFAStateId(offset + stop.0)));\n")]},
+    {"id": "C15-r1-merge-edges-for-loop-unshifted", "prop": "C15", "expect": "R1-MERGE/automata::NFA::merge_states/edge-targets-are-shifted",
+     "edits": [(A, _R1_MERGE_EDGES_FULL, "                let mut shifted_edges = BTreeMap::new();\n                for (symbol, target) in edges {\n                    shifted_edges.insert(symbol, target);\n                }\n                let edges = shifted_edges;\n")]},
+    {"id": "C15-r1-connect-helper-swapped", "prop": "C15", "expect": "R1-WIRING/automata::NFA::",
+     "edits": [(A, _R1_ANCHOR, _R1_CONNECT_SWAPPED + _R1_ANCHOR)] + _R1_CONNECT_EDITS},
+    {"id": "C15-r1-choice-for-each-swapped", "prop": "C15", "expect": "R1-WIRING/automata::NFA::choice/not-thompson",
+     "edits": [(A, _R1_CHOICE_LOOP, "        ends.into_iter().for_each(|(to, from)| {\n            start_state.epsilons.insert(from);\n            if let Some(to_state) = states.get_mut(&to) {\n                to_state.epsilons.insert(stop);\n            }\n        });\n")]},
+    {"id": "C15-r1-named-constant-collides", "prop": "C15", "expect": "R1-WIRING/automata::NFA::many/",
+     "edits": [(A, _R1_ANCHOR, "const FRESH_START: NFAStateId = NFAStateId(0);\nconst FRESH_STOP: NFAStateId = NFAStateId(2);\nconst RESERVED: usize = 2;\n\n" + _R1_ANCHOR),
+               (A, "        // add offset of 2 to state ids\n        let (mut states, ends) = Self::merge_states(once(self), 2);\n        let (from, to) = ends[0];\n\n        let start = NFAStateId(0);\n        let stop = NFAStateId(1);\n",
+                "        let (mut states, ends) = Self::merge_states(once(self), RESERVED);\n        let (from, to) = ends[0];\n\n        let start = FRESH_START;\n        let stop = FRESH_STOP;\n")]},
+]
+
+
+# ---- R1 robustness, second batch: helper taking a literal flag (seeded/benign/C15-D), edges.extend / let-else over first()+last() (C15-E)
+_R1_OPT_MANY = """        let (mut states, ends) = Self::merge_states(once(self), 2);
+        let (from, to) = ends[0];
+
+        let start = NFAStateId(0);
+        let stop = NFAStateId(1);
+        let mut start_state = NFAState::new();
+        start_state.epsilons.insert(from);
+        start_state.epsilons.insert(stop);
+        if let Some(to_state) = states.get_mut(&to) {
+            to_state.epsilons.insert(stop);
+        }
+        states.insert(start, start_state);
+        states.insert(stop, NFAState::new());
+
+        Self {
+            start,
+            stop,
+            states,
+        }
+    }
+
+    /// For `a` regular expression it is equivalent to `a*`
+    pub fn many(self) -> Self {
+        // add offset of 2 to state ids
+        let (mut states, ends) = Self::merge_states(once(self), 2);
+        let (from, to) = ends[0];
+
+        let start = NFAStateId(0);
+        let stop = NFAStateId(1);
+        let mut start_state = NFAState::new();
+        start_state.epsilons.insert(from);
+        start_state.epsilons.insert(stop);
+        if let Some(to_state) = states.get_mut(&to) {
+            to_state.epsilons.insert(stop);
+            to_state.epsilons.insert(from);
+        }
+"""
+_R1_WRAP_SKIPPABLE = """        self.wrap_skippable(false)
+    }
+
+    /// For `a` regular expression it is equivalent to `a*`
+    pub fn many(self) -> Self {
+        self.wrap_skippable(true)
+    }
+
+    fn wrap_skippable(self, repeat: bool) -> Self {
+        let (mut states, ends) = Self::merge_states(once(self), 2);
+        let (inner_start, inner_stop) = ends[0];
+
+        let start = NFAStateId(0);
+        let stop = NFAStateId(1);
+        if let Some(inner_stop_state) = states.get_mut(&inner_stop) {
+            inner_stop_state.epsilons.insert(stop);
+            if repeat {
+                inner_stop_state.epsilons.insert(inner_start);
+            }
+        }
+        let mut start_state = NFAState::new();
+        start_state.epsilons.insert(inner_start);
+        start_state.epsilons.insert(stop);
+"""
+_R1_PRED_LOOP = "        for symbol in 0..=Symbol::MAX {\n            if pred(symbol) {\n                state.edges.insert(symbol, stop);\n            }\n        }\n"
+_R1_PRED_EXTEND = "        state.edges.extend(\n            (Symbol::MIN..=Symbol::MAX)\n                .filter(|symbol| pred(*symbol))\n                .map(|symbol| (symbol, stop)),\n        );\n"
+_R1_SEQ_EMPTY = "        let (mut states, ends) = Self::merge_states(nfas, 0);\n        if ends.is_empty() {\n            return Self::empty();\n        }\n"
+_R1_SEQ_LET_ELSE2 = "        let (mut states, ends) = Self::merge_states(nfas, 0);\n        let (Some(&(start, _)), Some(&(_, stop))) = (ends.first(), ends.last()) else {\n            return Self::empty();\n        };\n"
+MUTANTS += [
+    {"id": "C15-benign-r1-wrap-skippable-flag", "prop": "C15", "benign": True,
+     "edits": [(A, _R1_OPT_MANY, _R1_WRAP_SKIPPABLE)]},
+    {"id": "C15-benign-r1-predicate-extend", "prop": "C15", "benign": True,
+     "edits": [(A, _R1_PRED_LOOP, _R1_PRED_EXTEND)]},
+    {"id": "C15-benign-r1-sequence-let-else-first-last", "prop": "C15", "benign": True,
+     "edits": [(A, _R1_SEQ_EMPTY, _R1_SEQ_LET_ELSE2), (A, _R1_SEQ_ENDS + "\n", "")]},
+    {"id": "C15-r1-wrap-skippable-flags-swapped", "prop": "C15", "expect": "R1-WIRING/automata::NFA::optional/not-thompson",
+     "edits": [(A, _R1_OPT_MANY, _R1_WRAP_SKIPPABLE.replace("self.wrap_skippable(false)", "self.wrap_skippable(TMP)").replace("self.wrap_skippable(true)", "self.wrap_skippable(false)").replace("(TMP)", "(true)"))]},
+    {"id": "C15-r1-wrap-skippable-flag-negated", "prop": "C15", "expect": "R1-WIRING/automata::NFA::many/not-thompson",
+     "edits": [(A, _R1_OPT_MANY, _R1_WRAP_SKIPPABLE.replace("            if repeat {\n", "            if !repeat {\n"))]},
+    {"id": "C15-r1-predicate-extend-negated", "prop": "C15", "expect": "R1-WIRING/automata::NFA::predicate/",
+     "edits": [(A, _R1_PRED_LOOP, _R1_PRED_EXTEND.replace("pred(*symbol)", "!pred(*symbol)"))]},
+    {"id": "C15-r1-sequence-let-else-last-first", "prop": "C15", "expect": "R1-WIRING/automata::NFA::sequence/not-thompson",
+     "edits": [(A, _R1_SEQ_EMPTY, _R1_SEQ_LET_ELSE2.replace("(ends.first(), ends.last())", "(ends.last(), ends.first())")), (A, _R1_SEQ_ENDS + "\n", "")]},
+]
